@@ -97,7 +97,7 @@ def solve_fresh(spec):
     return P
 
 
-def call_op(P, op):
+def call_op(P, op, raw=False):
     """One real call.  Returns ('data', dict name->array) or ('none', {})."""
     import pyPRISM
     calc = pyPRISM.calculate
@@ -132,6 +132,8 @@ def call_op(P, op):
             out = calc.solvation_potential(P, closure=arg)
         else:
             raise KeyError(op)
+    if raw:
+        return out
     return normalise(out, P.sys.types)
 
 
@@ -329,7 +331,58 @@ REPRO = ("import mc.props.c06 as m, mc.core as c\n"
 
 # --------------------------------------------------------------------------
 
+def case_held(rec, case):
+    """One object, NO copies in between: every result of the sequence is kept as it was returned (the caller's object), and
+    after the last call each of them still has the values it had when it was returned, and no two results share memory."""
+    import pyPRISM
+    B = base(case['system'])
+    P = copy.deepcopy(B.P0)
+    held = []
+    for n, op in enumerate(case['ops']):
+        try:
+            out = call_op(P, op, raw=True)
+        except HarnessError:
+            raise
+        except Exception as e:
+            return               # a raising call is the business of the history enumeration
+        rec.trans()
+        if isinstance(out, dict):
+            continue
+        held.append((n, op, out, copy.deepcopy(normalise(out, P.sys.types))))
+    for n, op, out, snap in held:
+        now = normalise(out, P.sys.types)
+        same = sorted(now) == sorted(snap) and all(np.array_equal(now[k], snap[k], equal_nan=True) for k in snap)
+        if not same:
+            rec.fail({'system': case['system'], 'ops': list(case['ops']), 'kind': 'held'},
+                     'one solved object (%s), calls %s: the result that call %d (%s) returned was changed by a later call - results handed out are the caller\'s'
+                     % (case['system'], list(case['ops']), n + 1, op), tags={'kind': 'held-result', 'op': op.split(':')[0], 'system': case['system']})
+            return
+    arrs = [(op, o.data) for _, op, o, _ in held if isinstance(o, pyPRISM.MatrixArray)]
+    stored = [(nm, getattr(P, nm).data) for nm in ARRS]
+    for i in range(len(arrs)):
+        for j, (nm, d) in enumerate(arrs[i + 1:] + stored):
+            if np.shares_memory(arrs[i][1], d):
+                rec.fail({'system': case['system'], 'ops': list(case['ops']), 'kind': 'held'},
+                         'one solved object (%s), calls %s: the array returned by %s shares memory with %s'
+                         % (case['system'], list(case['ops']), arrs[i][0], nm), tags={'kind': 'held-result', 'op': arrs[i][0].split(':')[0], 'system': case['system']})
+                return
+    rec.trace()
+    rec.outcome(core.digest(['held', case['system'], case['ops']]))
+
+
+def _held_worker(item):
+    sysname, first, depth = item
+    rec = Rec('C06')
+    ops = [o for o in OPS if o != 'resolve']
+    for tail in itertools.product(ops, repeat=depth - 1):
+        case_held(rec, {'system': sysname, 'ops': [first] + list(tail), 'kind': 'held'})
+    return rec.to_dict()
+
+
 def replay(rec, case):
+    if case.get('kind') == 'held':
+        case_held(rec, case)
+        return
     B = base(case['system'])
     P = copy.deepcopy(B.P0)
     approx = False
@@ -448,6 +501,10 @@ def run(rec, tier, seed):
                 for b in OPS:
                     items.append((sysname, [a, b], depth))
     core.pmap(_seq_worker, items, rec)
+    # results kept by the caller while the same object is used further: all sequences of 2 (quick) / 3 (thorough) calls, no copies in between
+    hd = 2 if tier == 'quick' else 3
+    core.pmap(_held_worker, [(sn, op, hd) for sn in ('bin', 'ter', 'neg') for op in OPS if op != 'resolve'], rec)
+    rec.note('held_results', 'all sequences of %d calls on one object with every returned object kept and re-examined after the last call' % hd)
     rec.note('sequence_depths', plan)
     rec.note('operations', OPS)
     rec.note('systems', {k: SYSTEMS[k]['types'] for k in SYSTEMS})
